@@ -1159,6 +1159,8 @@ func TestCheck(t *testing.T) {
 			runExtSched(t, r)
 		} else if bytes.Contains(raw, []byte(`"family": "reload-ext"`)) || bytes.Contains(raw, []byte(`"family":"reload-ext"`)) {
 			extReplayOne(t, r, raw)
+		} else if bytes.Contains(raw, []byte(`"family": "installers"`)) || bytes.Contains(raw, []byte(`"family":"installers"`)) {
+			runInstallers(t, r) // the whole part is a second or two: run it again
 		} else if bytes.Contains(raw, []byte(`"family": "lifecycle"`)) || bytes.Contains(raw, []byte(`"family":"lifecycle"`)) {
 			lifeReplayOne(t, r, raw)
 		} else if bytes.Contains(raw, []byte(`"family": "declared"`)) || bytes.Contains(raw, []byte(`"family":"declared"`)) {
@@ -1192,6 +1194,9 @@ func TestCheck(t *testing.T) {
 	if !skip("reload-seq") {
 		runReloadSequential(t, r)
 	}
+	if !skip("installers") {
+		runInstallers(t, r) // the same edits brought in by a management mutation instead of a reload (installer_test.go)
+	}
 	t2 := time.Now()
 	if !skip("hmac") {
 		runHMAC(t, r, deadline)
@@ -1217,7 +1222,7 @@ func TestCheck(t *testing.T) {
 	if !skip("reload-ext-sched") {
 		runExtSched(t, r)
 	}
-	r.Set("wall_parts", fmt.Sprintf("lifecycle=%.1fs declared=%.1fs tolerance=%.1fs reload-seq=%.1fs hmac=%.1fs reload-ext-seq=%.1fs reload-sched=%.1fs reload-ext-sched=%.1fs", tl1.Sub(tl0).Seconds(), t3.Sub(tl1).Seconds(), t1.Sub(t0).Seconds(), t2.Sub(t1).Seconds(), tl0.Sub(t2).Seconds(), t4.Sub(t3).Seconds(), t5.Sub(t4).Seconds(), time.Since(t5).Seconds()))
+	r.Set("wall_parts", fmt.Sprintf("lifecycle=%.1fs declared=%.1fs tolerance=%.1fs reload-seq+installers=%.1fs hmac=%.1fs reload-ext-seq=%.1fs reload-sched=%.1fs reload-ext-sched=%.1fs", tl1.Sub(tl0).Seconds(), t3.Sub(tl1).Seconds(), t1.Sub(t0).Seconds(), t2.Sub(t1).Seconds(), tl0.Sub(t2).Seconds(), t4.Sub(t3).Seconds(), t5.Sub(t4).Seconds(), time.Since(t5).Seconds()))
 
 	r.Set("rule", "complete finite products, one real request per element through the ingress handler wired by startServers from DSL text. "+
 		"HMAC = {secret set: 1 inline | 2 overlapping secret_ref versions | inline+version (thorough: 3 adjacent versions with an open end, 1 s tolerance)} x {header names: default | custom} x "+
@@ -1233,6 +1238,8 @@ func TestCheck(t *testing.T) {
 		"Reload = 14 credential-changing reloads of one route (Basic password changed / user removed, HMAC inline secret replaced / secret_ref value replaced / validity window closed / header names changed / tolerance narrowed, auth added to an open route (basic, hmac, forward), forward URL changed, basic<->hmac, hmac->forward) x "+
 		"{7 sequential histories of boots, reloads (also back again) and requests | under the controlled scheduler: real reloadConfig || ingress request(s) carrying the old / no (thorough: new, two requests) credential, with and without a request served before, every schedule within a preemption bound AND unbounded with sleep sets}, "+
 		"each followed, once quiescent, by the probe vector {old credential, no credential, new credential, old credential again}: judged by the reference under the configuration in force (after Reload returned true: the new one, exactly as the fresh boot of the new text is judged); an overlapping request by the old or the new configuration. "+
+		"Installers = {the 14 credential-changing edits + a route that is new in the edited file with auth basic / hmac / forward} x {what makes the edited, not yet reloaded file the running configuration: reload | Admin API managed-endpoint mutation creating a mapping on another route / on the authenticated route itself / moving it between two other routes / deleting it | a mutation the gateway refuses (unknown route, route mapped to another endpoint)} x "+
+		"{edit, install | one accepted request, edit, install | edit, install, edit back, install back}, probe vector after the boot, after the edit (previous configuration still in force) and after every install: once the installer reported success (Reload true / 200 applied:true) the installed text is in force exactly as after a fresh boot of it; after a refused mutation whatever authenticates under neither configuration is refused and nothing stored. "+
 		"External credential values = {site: HMAC secret (short form) | secrets{} version behind secret_ref | one of two secrets of an auth hmac block with custom header names | Basic password next to a literal second user | forward-auth URL} x "+
 		"{carrier of the value: file: ref | env: ref | vault: ref (in-memory KV API) | {file.PATH} | {env.NAME} | {$NAME} | {vars.X} over {file.} / {env.}} x {every sequence of 2 (thorough: 3) content states out of A, B, B+newline, empty, blank, missing after a boot with A} x "+
 		"{reload style: Hookaidofile byte-identical | one more comment | unrelated route toggled | byte-identical, reloaded twice (thorough: also every per-step mix of styles)}, probe vector {credential of A, of B, none, of the empty value, the credential that does not depend on the external value, A again, B again} after the boot and after every step: "+
@@ -1256,6 +1263,7 @@ func TestCheck(t *testing.T) {
 	r.Assume("external credential values: the value derivable from a content is the content itself or the content without surrounding white space (the documentation leaves the trailing newline open; completeness is demanded only where both coincide); file carriers use a per-case directory, env carriers a per-case variable of this process, vault: a KV v2 endpoint behind an in-memory http.Transport (sequential histories only); a refused reload although the content is a plain value is reported as an infrastructure error")
 	r.Assume("lifecycle: 'the sender went away' is the request context being done (what net/http does when the connection closes; the wire driver checks that mapping through the production http.Server on an in-memory pipe); the auth service 'answered 2xx' iff the in-memory transport handed a 2xx response to its caller; the status written for a sender that is gone is judged only as 'not 2xx'; a truncated body is judged by the bytes delivered")
 	r.Assume("declared authentication: one option per configuration carries the enumerated value, all others are valid literals; a blank secret behind an env:/file: reference (accepted by the unchanged tree as the one-blank key) counts as a value, not as void; placeholders inside option NAMES, in match / pull / queue blocks and two void options at once are not enumerated")
+	r.Assume("installers: sequential histories only (no interleaving of a mutation with ingress requests); the MCP route to the same mutation functions and mutations whose own effect needs a restart are not enumerated; a managed-endpoint mutation is taken to be 'write + reload' as the project's DESIGN.md documents it")
 	r.Assume("after a reload that WIDENS the HMAC tolerance the replay protection may refuse stale timestamps it cannot vouch for; completeness after a reload is therefore demanded only for plain credentials (Basic, API key, HMAC with clock = signed ts)")
 	if os.Getenv("C08_DEBUG") != "" {
 		var ks []string
